@@ -30,3 +30,32 @@ Theorem C05_check :
 Proof. exact Refine.rel_check. Qed.
 Print Assumptions C05_check.
 
+(** UNDER CONCURRENCY (Conc/ConcExtras.v, release/acquire machines, every interleaving and stale read): the remembered availability never
+    exceeds the true one measured against the REAL position of the followed thread - it errs only towards refusing - and every granted
+    window lies within it *)
+Require MRB.Conc.ConcExtras.
+Theorem C05_concurrent_under_two_stages :
+  forall (len : nat) (script : list (bool * nat * nat)), 0 < len -> let c := RAn.exec_n len (RAn.init_n len) script in (RAn.pos (RAn.C c) + RAn.ca (RAn.C c) <= RAn.pos (RAn.P c) /\ RAn.off (RAn.C c) <= RAn.ca (RAn.C c)) /\ RAn.pos (RAn.P c) + RAn.ca (RAn.P c) + 1 <= RAn.pos (RAn.C c) + len /\ RAn.off (RAn.P c) <= RAn.ca (RAn.P c).
+Proof. exact ConcExtras.TwoStage.ca_under_n. Qed.
+Print Assumptions C05_concurrent_under_two_stages.
+
+Theorem C05_concurrent_under_three_stages :
+  forall (len : nat) (script : list (RA3.tid * nat * nat)), 0 < len -> let c := RA3n.exec3_n len (RA3n.init3_n len) script in (RA3n.pos3 (RA3n.C3 c) + RA3n.ca3 (RA3n.C3 c) <= RA3n.pos3 (RA3n.W3 c) /\ RA3n.off3 (RA3n.C3 c) <= RA3n.ca3 (RA3n.C3 c)) /\ (RA3n.pos3 (RA3n.W3 c) + RA3n.ca3 (RA3n.W3 c) <= RA3n.pos3 (RA3n.P3 c) /\ RA3n.off3 (RA3n.W3 c) <= RA3n.ca3 (RA3n.W3 c)) /\ RA3n.pos3 (RA3n.P3 c) + RA3n.ca3 (RA3n.P3 c) + 1 <= RA3n.pos3 (RA3n.C3 c) + len /\ RA3n.off3 (RA3n.P3 c) <= RA3n.ca3 (RA3n.P3 c).
+Proof. exact ConcExtras.ThreeStage.ca_under_3n. Qed.
+Print Assumptions C05_concurrent_under_three_stages.
+
+Theorem C05_concurrent_under_reset_detached :
+  forall (len : nat) (script : list (bool * RAx.cmd)), 0 < len -> let c := RAx.exec_x len (RAx.init_x len) script in (RAx.pos (RAx.C c) + RAx.ca (RAx.C c) <= RAx.pos (RAx.P c) /\ RAx.off (RAx.C c) <= RAx.ca (RAx.C c)) /\ RAx.pos (RAx.P c) + RAx.ca (RAx.P c) + 1 <= RAx.pos (RAx.C c) + len /\ RAx.pos (RAx.P c) + RAx.ca (RAx.P c) + 1 <= RAx.publishedC c + len /\ RAx.off (RAx.P c) <= RAx.ca (RAx.P c).
+Proof. exact ConcExtras.Extended.ca_under_x. Qed.
+Print Assumptions C05_concurrent_under_reset_detached.
+
+Theorem C05_concurrent_granted_within :
+  forall (len : nat) (script : list (RA3.tid * nat * nat)), 0 < len -> let c := RA3n.exec3_n len (RA3n.init3_n len) script in (RA3n.pc3 (RA3n.C3 c) = 2 \/ RA3n.pc3 (RA3n.C3 c) = 3 -> RA3n.pos3 (RA3n.C3 c) + RA3n.cnt3 (RA3n.C3 c) <= RA3n.pos3 (RA3n.W3 c)) /\ (RA3n.pc3 (RA3n.W3 c) = 2 \/ RA3n.pc3 (RA3n.W3 c) = 3 -> RA3n.pos3 (RA3n.W3 c) + RA3n.cnt3 (RA3n.W3 c) <= RA3n.pos3 (RA3n.P3 c)) /\ (RA3n.pc3 (RA3n.P3 c) = 2 \/ RA3n.pc3 (RA3n.P3 c) = 3 -> RA3n.pos3 (RA3n.P3 c) + RA3n.cnt3 (RA3n.P3 c) + 1 <= RA3n.pos3 (RA3n.C3 c) + len) /\ (RA3n.pc3 (RA3n.C3 c) = 2 -> RA3n.pos3 (RA3n.C3 c) + RA3n.off3 (RA3n.C3 c) < RA3n.pos3 (RA3n.W3 c)) /\ (RA3n.pc3 (RA3n.W3 c) = 2 -> RA3n.pos3 (RA3n.W3 c) + RA3n.off3 (RA3n.W3 c) < RA3n.pos3 (RA3n.P3 c)) /\ (RA3n.pc3 (RA3n.P3 c) = 2 -> RA3n.pos3 (RA3n.P3 c) + RA3n.off3 (RA3n.P3 c) + 1 < RA3n.pos3 (RA3n.C3 c) + len).
+Proof. exact ConcExtras.ThreeStage.granted_within_3n. Qed.
+Print Assumptions C05_concurrent_granted_within.
+
+Theorem C05_concurrent_granted_within_reset_detached :
+  forall (len : nat) (script : list (bool * RAx.cmd)), 0 < len -> let c := RAx.exec_x len (RAx.init_x len) script in (RAx.pc (RAx.C c) = 2 \/ RAx.pc (RAx.C c) = 3 -> RAx.pos (RAx.C c) + RAx.cnt (RAx.C c) <= RAx.pos (RAx.P c)) /\ (RAx.pc (RAx.P c) = 2 \/ RAx.pc (RAx.P c) = 3 -> RAx.pos (RAx.P c) + RAx.cnt (RAx.P c) + 1 <= RAx.pos (RAx.C c) + len) /\ (RAx.pc (RAx.C c) = 2 -> RAx.pos (RAx.C c) + RAx.off (RAx.C c) < RAx.pos (RAx.P c)) /\ (RAx.pc (RAx.P c) = 2 -> RAx.pos (RAx.P c) + RAx.off (RAx.P c) + 1 < RAx.pos (RAx.C c) + len) /\ (RAx.pc (RAx.C c) = 5 -> RAx.pos (RAx.C c) <= RAx.npos (RAx.C c) <= RAx.pos (RAx.P c)).
+Proof. exact ConcExtras.Extended.granted_within_x. Qed.
+Print Assumptions C05_concurrent_granted_within_reset_detached.
+
